@@ -35,7 +35,7 @@ TRUSTED = ["aliasing of one dict object between two emitted events is not modell
 ASSUMPTIONS = ["callbacks are deterministic functions of (event, context state)"]
 NOT_YET_PROVED = []
 
-KINDS = ["pass", "drop", "dup", "expand", "dropall", "hold", "rev", "delay", "gen", "barrier"]
+KINDS = ["pass", "drop", "dup", "twice", "expand", "dropall", "hold", "rev", "delay", "gen", "barrier"]
 # a two-phase context written against the developer README: ONE context object shared by every `collect` and
 # `apply` stage of a graph; it is drained once per registration (first drain ends the collection phase, later
 # drains release what the applying stages hold).  Covered by the global-store engine model (Props/C03G.lean).
@@ -56,7 +56,7 @@ def _with_id(ev, i):
     return e
 
 
-STATELESS = ("pass", "drop", "dup", "expand", "dropall")
+STATELESS = ("pass", "drop", "dup", "twice", "expand", "dropall")
 
 
 class Runaway(Exception):
@@ -82,7 +82,7 @@ def run_real(kinds, inp, shared=False):
     # context can make that grow without bound - stop instead of running out of memory)
     ub, fac = len(inp) + 1, 1
     for k in kinds:
-        f = {"dup": 2, "expand": 3}.get(k, 1)
+        f = {"dup": 2, "twice": 2, "expand": 3}.get(k, 1)
         ub, fac = ub * f + 1, fac * f
     limit = (len(kinds) + 1) * ub + 64
     n_tp = sum(k in ("collect", "apply") for k in kinds)
@@ -127,6 +127,8 @@ def run_real(kinds, inp, shared=False):
                 r = [] if x % 2 == 0 else [event]
             elif kind == "dup":
                 r = [event, _with_id(event, x + 1000)]
+            elif kind == "twice":
+                r = [event, copy.deepcopy(event)]       # pipeline/template.py: the event and an equal copy
             elif kind == "expand":
                 r = [_with_id(event, x + 2000), event, _with_id(event, x + 3000)]
             elif kind == "dropall":
@@ -163,6 +165,8 @@ def run_real(kinds, inp, shared=False):
                     return [] if x % 2 == 0 else [event]
                 if kind == "dup":
                     return [event, _with_id(event, x + 1000)]
+                if kind == "twice":
+                    return [event, copy.deepcopy(event)]
                 if kind == "expand":
                     return [_with_id(event, x + 2000), event, _with_id(event, x + 3000)]
                 return []
@@ -280,7 +284,7 @@ def compose(kinds, inp):
     for k in kinds:
         ys = []
         for x in xs:
-            ys += {"pass": [x], "drop": [] if x % 2 == 0 else [x], "dup": [x, x + 1000],
+            ys += {"pass": [x], "drop": [] if x % 2 == 0 else [x], "dup": [x, x + 1000], "twice": [x, x],
                    "expand": [x + 2000, x, x + 3000], "dropall": []}[k]
         xs = ys
     return xs
@@ -305,6 +309,15 @@ def oracle(kinds, inp, r, shared=False):
         return ("engine-delivery", f"exported {r['out']} but last stage emitted {r['emis'][n-1]}")
     if r["drains"] != list(range(n)):
         return ("engine-drain-order", f"contexts drained in order {r['drains']}")
+    # the built-in barrier hands on exactly what it was handed (all registrations share one hold list, so the
+    # multiset is taken over all of them; a single barrier also keeps the order)
+    bs = [b for b, k in enumerate(kinds) if k == "barrier"]
+    if bs:
+        got, want = sorted(x for b in bs for x in r["emis"][b]), sorted(x for b in bs for x in recv[b])
+        if got != want:
+            return ("engine-barrier", f"the barrier stages were handed {want} but released {got}")
+        if len(bs) == 1 and r["emis"][bs[0]] != recv[bs[0]]:
+            return ("engine-barrier", f"barrier {bs[0]} was handed {recv[bs[0]]} but released {r['emis'][bs[0]]} (order)")
     idxs = [j for (j, _) in r["log"]]
     for b, k in enumerate(kinds):
         if k == "barrier":
